@@ -347,7 +347,12 @@ def gen_misfit_at_offset(gs, w):
     v = _plain(gs, w, t)
     if v is None or "d" not in v:
         return None
-    n = w.schema[ft]["shape"][0] + 1
+    n0 = w.schema[ft]["shape"][0]
+    if n0 > 0 and rng.random() < 0.5:
+        # ... or one item that is not a number: found only while the values are being written
+        v["d"][fname] = {"l": [M.gen_scalar(rng, w.schema[w.schema[ft]["item"]]["t"]) for _ in range(n0)], "shape": [n0]}
+        return {"type": t, "value": v, "region": rng.choice(live_regions), "bad_field": fname, "bad_item": rng.randrange(n0)}
+    n = n0 + 1
     v["d"][fname] = {"l": [M.gen_scalar(rng, w.schema[w.schema[ft]["item"]]["t"]) for _ in range(n)], "shape": [n]}
     return {"type": t, "value": v, "region": rng.choice(live_regions), "bad_field": fname}
 
@@ -407,7 +412,13 @@ def run(step):
             # the object (with the misfitting field cut to its length) must fit the region: measure it
             try:
                 ok = dict(py)
-                ok[op["bad_field"]] = list(ok[op["bad_field"]])[:-1]
+                if op.get("bad_item") is not None:
+                    py = dict(py)
+                    lst = list(py[op["bad_field"]])
+                    lst[op["bad_item"]] = "x"
+                    py[op["bad_field"]] = lst
+                else:
+                    ok[op["bad_field"]] = list(ok[op["bad_field"]])[:-1]
                 need = int(cls(ok, _context=xo.ContextCpu())._size)
             except Exception:
                 raise Skip()
